@@ -159,6 +159,11 @@ structure St where
   acked : List Nat := []
   lost : List Nat := []                           -- already reported by `no_silent_loss`
   seen : List (Nat × Nat) := []                   -- id ↦ time of the insert that accepted it
+  /-- id ↦ current costs per asset: the costs handed to the accepting `insert`, replaced at every
+      re-costing maintenance the transaction survives by what the chain charges then (fee table of
+      the `fees` lines + transferred amount; unchanged where `total_costs` fails). Computed from
+      the op lines only. -/
+  ccost : List (Nat × List Nat) := []
 
 def lookupD {β} (l : List (Nat × β)) (k : Nat) (d : β) : β := (l.lookup k).getD d
 
@@ -212,6 +217,13 @@ def checkDump (st : St) (d : IDump) (afterMaintain : Bool) (modelDropped : List 
         " [failed demotion/promotion in run_maintenance: the model, which agrees with the code on this line, un-tracks it without a removal reason]"
         else ""
       bad := ("no_silent_loss", s!"accepted t{i} vanished: neither tracked nor in the removal cache (status {lookupD d.st i "?"}){why}") :: bad
+  -- the costs the mempool holds are the current costs
+  for row in d.pend ++ d.park do
+    match st.ccost.lookup row.id with
+    | some c =>
+      if assets.map (fun k => row.costs.getD k 0) != assets.map (fun k => c.getD k 0) then
+        bad := ("recost_applied", s!"t{row.id} is held with costs {row.costs} but its current costs (insert / last re-costing maintenance) are {c}") :: bad
+    | none => pure ()
   -- an id that left with a reason is reported as removed
   for i in st.accepted do
     if !(d.contained.contains i) then
@@ -234,9 +246,11 @@ def checkDump (st : St) (d : IDump) (afterMaintain : Bool) (modelDropped : List 
     -- affordable from the balances last shown
     let vb := lookupD st.vbal a []
     for k in assets do
-      let total := ((d.pend.filter (·.acct == a)).map (fun r => r.costs.getD k 0)).foldl (· + ·) 0
+      -- at the transactions' CURRENT costs (not at whatever costs the mempool happens to hold)
+      let total := ((d.pend.filter (·.acct == a)).map (fun r =>
+        (lookupD st.ccost r.id r.costs).getD k 0)).foldl (· + ·) 0
       if total > (vb.getD k none).getD 0 then
-        bad := ("ready_affordable", s!"account {a} asset {k}: ready costs {total} exceed the balance {(vb.getD k none).getD 0} last shown") :: bad
+        bad := ("ready_affordable", s!"account {a} asset {k}: ready costs {total} (at current fees) exceed the balance {(vb.getD k none).getD 0} last shown") :: bad
     -- parked limit per account
     if kn.length > 15 then
       bad := ("parked_limits", s!"account {a} has {kn.length} parked transactions") :: bad
@@ -378,10 +392,13 @@ def run (lines : Array String) : Driver.Report := Id.run do
           if (builderQueue s').length ≥ 4 then r := r.bump "builder_queue_ge4"
           -- ghost state of the monitors, from the op and the implementation's result
           match rest with
-          | ["insert", t, cur, b, _, at_] =>
+          | ["insert", t, cur, b, c, at_] =>
             let id := (parseLabel t).getD 0
             match st.txs[id]? with
             | some tx =>
+              if ires == "pending" || ires == "parked" then
+                let given := assets.map (fun k => tot (vecCosts (parseVec c)) k)
+                st := { st with ccost := setKey st.ccost id given }
               st := { st with shown := setKey st.shown tx.acct cur.toNat! }
               if ires == "pending" then st := { st with vbal := setKey st.vbal tx.acct (parseVec b) }
               if ires == "pending" || ires == "parked" then
@@ -398,6 +415,16 @@ def run (lines : Array String) : Driver.Report := Id.run do
           match parseDump idump with
           | none => r := r.addMonitor "dump_parse" n line "cannot parse the state dump"
           | some d =>
+            -- a re-costing maintenance re-costs every transaction that survives it
+            if isMaintain && rest.getD 1 "" == "1" then
+              for row in d.pend ++ d.park do
+                match st.txs[row.id]?, st.ccost.lookup row.id with
+                | some tx, some c =>
+                  let old : List (Nat × Nat) := assets.map (fun k => (k, c.getD k 0))
+                  let t' := recostTx st.chain { tx with costs := old }
+                  let now := assets.map (fun k => tot t'.costs k)
+                  st := { st with ccost := setKey st.ccost row.id now }
+                | _, _ => pure ()
             let agreed := impl == s!"{mres} | {dump s' st.txs.size}"
             for (name, msg) in checkDump st d isMaintain (if agreed then s'.dropped else []) do
               r := r.addMonitor name n line msg
